@@ -565,7 +565,21 @@ def kernel_fold_check(seed=0, n=12):
             dv = A([[V('dv0'), V('dv1'), V('dv2')], [V('dvB0'), V('dvB1'), V('dvB2')]])
             dt = A([V('dt'), V('dtB')])
             _pyf(ni.integrate)(dt, lla, vel, mat, theta, dv, 0, with_alt)
-            return _kernel_outs(lla, vel, mat, row=2)
+            outs = _kernel_outs(lla, vel, mat, row=2)
+            # structural check (same context, hash-consed): row 2 must be the one-step DAG applied to row 1
+            row1 = _kernel_outs(lla, vel, mat, row=1)
+            env = dict(row1)
+            env.update(dt=V('dtB'))
+            env.update({f'th{i}': V(f'thB{i}') for i in range(3)})
+            env.update({f'dv{i}': V(f'dvB{i}') for i in range(3)})
+            names = list(paths1[0][1])
+            rep = sym.replay(ctx1, [paths1[0][1][k] for k in names], env)
+            for k, r_ in zip(names, rep):
+                if sym.lift(outs[k]).nid != r_.nid:
+                    raise TraceError(f"kernel is not a fold of its one-step map: the expression of {nm}.{k} at the "
+                                     f"second increment is not the one-step expression applied to row 1 "
+                                     f"(something other than row j, increment i, dt[i] and the flag is used)")
+            return outs
         with patched(ALL_MODS, KEXTRA):
             ctx2, paths2 = sym.enumerate_paths(fn2)
         tab = calls_table()
